@@ -291,6 +291,66 @@ pub static HARNESS_PANIC: AtomicBool = AtomicBool::new(false);
 /// seconds after which a single case that has not returned is reported as a hang
 pub const HANG_SECS: u64 = 60;
 
+// ---------------------------------------------------------------------------------------------
+// process-wide watchdog for cases that run outside `par_for_watch` (sequential layers): `watch(description, f)` registers
+// the case while `f` runs; a case that has not returned after HANG_SECS is reported as a violation and the process
+// exits 1 (a computation that does not terminate cannot be interrupted from inside).
+
+static WATCHED: Mutex<Option<std::collections::HashMap<u64, (Instant, String)>>> = Mutex::new(None);
+static WATCH_PROP: Mutex<String> = Mutex::new(String::new());
+static WATCH_IDS: AtomicU64 = AtomicU64::new(1);
+
+pub fn install_watchdog(prop: &str) {
+    *WATCH_PROP.lock().unwrap() = prop.to_string();
+    let mut w = WATCHED.lock().unwrap();
+    if w.is_some() {
+        return;
+    }
+    *w = Some(std::collections::HashMap::new());
+    std::thread::spawn(|| loop {
+        std::thread::sleep(std::time::Duration::from_millis(500));
+        let hung: Option<String> = {
+            let w = WATCHED.lock().unwrap();
+            w.as_ref().and_then(|m| m.values().find(|(t, _)| t.elapsed().as_secs() >= HANG_SECS).map(|(_, d)| d.clone()))
+        };
+        if let Some(desc) = hung {
+            let prop = WATCH_PROP.lock().unwrap().clone();
+            let sig = "hang:case did not return".to_string();
+            let name = format!("{}/replays/{}-{:016x}.json", verif_dir(), prop, h64(&(sig.clone(), &desc)));
+            std::fs::create_dir_all(format!("{}/replays", verif_dir())).ok();
+            let case: J = serde_json::from_str(&desc).unwrap_or(json!({"case": desc}));
+            let body = json!({"property": prop, "signature": sig, "what": format!("a single case did not return within {} s (execution must terminate)", HANG_SECS), "case": case});
+            std::fs::write(&name, serde_json::to_string_pretty(&body).unwrap()).ok();
+            println!("VIOLATION property={} replay={}", prop, name);
+            println!("  signature: {}", sig);
+            println!("  what: a single case did not return within {} s: {}", HANG_SECS, desc.chars().take(300).collect::<String>());
+            std::process::exit(1);
+        }
+    });
+}
+
+/// run `f` registered under `description` (a JSON text of the case, used for the replay file should it hang)
+pub fn watch<T>(description: &dyn Fn() -> String, f: impl FnOnce() -> T) -> T {
+    let id = WATCH_IDS.fetch_add(1, Ordering::Relaxed);
+    let registered = {
+        let mut w = WATCHED.lock().unwrap();
+        match w.as_mut() {
+            Some(m) => {
+                m.insert(id, (Instant::now(), description()));
+                true
+            }
+            None => false,
+        }
+    };
+    let r = f();
+    if registered {
+        if let Some(m) = WATCHED.lock().unwrap().as_mut() {
+            m.remove(&id);
+        }
+    }
+    r
+}
+
 /// Like par_for_budget, with a watchdog: every worker publishes the index it is working on; a case that does not
 /// return within HANG_SECS is a violation ("never hangs"): the replay file is written from `describe(index)`, the
 /// VIOLATION line is printed and the process exits with status 1 (a stuck thread cannot be cancelled).
